@@ -562,8 +562,10 @@ func (m *ctlModel) eval(fr *mFrame, e Expr) (mValue, completion) {
 			m.logEv("R", e.Site, "non-object")
 			return -1, normalC
 		}
-		m.logEv("R", e.Site, fmt.Sprintf("%s,%v", mDescribe(res.value), res.done))
-		return mNorm(res.value), normalC
+		rv := m.resValue(res) // the R helper reads 'value', then 'done'
+		rd := m.resDone(res)
+		m.logEv("R", e.Site, fmt.Sprintf("%s,%v", mDescribe(rv), rd))
+		return mNorm(rv), normalC
 	case *EAwait:
 		v, c := m.eval(fr, e.E)
 		if abruptExpr(c) {
@@ -640,8 +642,8 @@ func (m *ctlModel) evalYieldStar(fr *mFrame, e *EYieldStar) (mValue, completion)
 			if !ok {
 				return nil, mTypeErr()
 			}
-			if res.done {
-				return res.value, normalC
+			if m.resDone(res) {
+				return m.resValue(res), normalC
 			}
 		case cThrow:
 			if hasThrow(it) {
@@ -653,8 +655,8 @@ func (m *ctlModel) evalYieldStar(fr *mFrame, e *EYieldStar) (mValue, completion)
 				if !ok {
 					return nil, mTypeErr()
 				}
-				if res.done {
-					return res.value, normalC
+				if m.resDone(res) {
+					return m.resValue(res), normalC
 				}
 			} else {
 				// close the iterator, then throw a TypeError (the protocol violation)
@@ -676,8 +678,8 @@ func (m *ctlModel) evalYieldStar(fr *mFrame, e *EYieldStar) (mValue, completion)
 			if !ok {
 				return nil, mTypeErr()
 			}
-			if res.done {
-				return nil, completion{t: cReturn, v: res.value}
+			if m.resDone(res) {
+				return nil, completion{t: cReturn, v: m.resValue(res)}
 			}
 		}
 		// GeneratorYield(innerResult): the inner result object is handed to the driver as is
